@@ -36,10 +36,13 @@ struct Pair {
   // C: container type; get(c, i), size; copying Convert, in-place ConvertInPlace
   template <class C, class MK, class GET>
   void container(const std::string& form, int n, MK&& mk, GET&& get) {
-    for (int pat = 0; pat < 2; pat++) {
+    for (int pat = 0; pat < 3; pat++) {
       std::vector<T> in(n), want(n);
+      // pat 0, 1: pairwise distinct slot values; pat 2: the values of an exactly symmetric tensor (slots (i,j) and (j,i) equal, the
+      // six independent ones distinct) - a structure-dependent shortcut inside a tensor conversion is met here
+      static const int sym[9] = {0, 1, 2, 1, 3, 4, 2, 4, 5};
       for (int i = 0; i < n; i++) {
-        in[i] = val<T>(i, pat);
+        in[i] = pat < 2 ? val<T>(i, pat) : val<T>(sym[i % 9] + 9 * (i / 9), 1);
         want[i] = PhQ::Convert(in[i], f, t);
       }
       const C orig = mk(in);
@@ -78,7 +81,8 @@ struct Pair {
       }
     }
   }
-  void run() {
+  // light: the small forms only (every ordered unit pair gets these in the quick tier; the large containers go with the quick pairs)
+  void run(bool light = false) {
     using namespace PhQ;
     container<T>("scalar", 1, [](const std::vector<T>& v) { return v[0]; }, [](const T& c, int) { return c; });
     container<std::array<T, 1>>("array<1>", 1, [](const std::vector<T>& v) { return std::array<T, 1>{v[0]}; }, [](const std::array<T, 1>& c, int i) { return c[i]; });
@@ -89,7 +93,7 @@ struct Pair {
     container<std::array<T, 9>>(
         "array<9>", 9, [](const std::vector<T>& v) { return std::array<T, 9>{v[0], v[1], v[2], v[3], v[4], v[5], v[6], v[7], v[8]}; },
         [](const std::array<T, 9>& c, int i) { return c[i]; });
-    container<std::array<T, 17>>(
+    if (!light) container<std::array<T, 17>>(
         "array<17>", 17,
         [](const std::vector<T>& v) {
           std::array<T, 17> a;
@@ -98,7 +102,7 @@ struct Pair {
         },
         [](const std::array<T, 17>& c, int i) { return c[i]; });
     for (int n : {0, 1, 5, 64, 1000, 1024, 4096})  // incl. exact multiples of plausible block sizes
-      container<std::vector<T>>("vector<" + std::to_string(n) + ">", n, [](const std::vector<T>& v) { return v; }, [](const std::vector<T>& c, int i) { return c[i]; });
+      if (!light || n <= 5) container<std::vector<T>>("vector<" + std::to_string(n) + ">", n, [](const std::vector<T>& v) { return v; }, [](const std::vector<T>& c, int i) { return c[i]; });
     container<PlanarVector<T>>("PlanarVector", 2, [](const std::vector<T>& v) { return PlanarVector<T>(v[0], v[1]); }, [](const PlanarVector<T>& c, int i) { return c.x_y()[i]; });
     container<Vector<T>>("Vector", 3, [](const std::vector<T>& v) { return Vector<T>(v[0], v[1], v[2]); }, [](const Vector<T>& c, int i) { return c.x_y_z()[i]; });
     container<SymmetricDyad<T>>(
@@ -183,10 +187,9 @@ void all(int part, int nparts) {
   for (size_t i = 0; i < ens.size(); i++)
     for (size_t j = 0; j < ens.size(); j++) {
       const bool quick_pair = j == i || j == (i + 1) % ens.size() || ens[j].value == PhQ::Standard<E> || ens[i].value == PhQ::Standard<E>;
-      if (!thorough && !quick_pair) continue;
       if ((idx++ % nparts) != part) continue;
       Pair<T> p{ens[i].name, ens[j].name, ens[i].value, ens[j].value};
-      p.run();
+      p.run(!thorough && !quick_pair);
     }
   if (part == 0) {
     StaticSweep<T> s;
